@@ -352,7 +352,7 @@ def run(ck):
     ck.extra['module'] = MODULE
     ck.extra['exhaustive_dtype_grid'] = True
     ck.extra['rule'] = ('correspondence: exhaustive grid 12 transform paths x input dtype x buffer dtype x default dtype (96 cases) of result dtype / raise vs the Lean dtype model; oracle: float32 vs float64 '
-                        'outputs within 64*eps32*(gain*max|x|+bias) with the gain (largest absolute row sum) extracted from unit impulses, three dynamic ranges; .float()/.double() conversions; '
+                        'outputs within 64*eps32*(gain*max|x|+bias) with the gain (largest absolute row sum) extracted from unit impulses, three dynamic ranges plus the subnormal end of the float32 range (1e-36) for the linear transforms; .float()/.double() conversions; '
                         'transposed / sliced / expanded / channels-last views vs contiguous copies; distinct by (path, dtype triple) / (path, range) / (path, view)')
     if not getattr(ck, 'no_lean', False):
         ck.lean = rt.lean_check(PROP, MODULE, THEOREMS, regen=regen_all)
@@ -363,6 +363,9 @@ def run(ck):
         # amplitudes from tiny to huge (the bound is relative to max|x|), and for the scattering layers every admissible kind of
         # magnitude bias: the default, none at all (magbias = 0) and a large one
         jobs = [(path, dyn, ck.rng.getrandbits(31), 1e-2) for path in range(12) for dyn in ([1e-5, 1.0, 1e4] if q else [1e-7, 1e-5, 1e-3, 1.0, 1e4, 1e6])]
+        # the ends of the float32 range for the linear transforms (results scale exactly with the input, so the relative bound must
+        # hold where intermediates are subnormal and where they approach overflow)
+        jobs += [(path, dyn, ck.rng.getrandbits(31), 1e-2) for path in range(10) for dyn in ([1e-36] if q else [1e-36, 1e-37, 1e30])]
         jobs += [(path, dyn, 3 * ck.rng.getrandbits(29) + kind, mb) for path in (10, 11) for mb in (0.0, 1.0) for kind in (0, 1, 2)
                  for dyn in ([1e-5, 1.0] if q else [1e-7, 1e-5, 1e-3, 1.0, 1e4])]
         isos = rt.iso_run([{'module': 'harness.props.c16', 'func': 'iso_job', 'args': {'path': p_, 'dyn': d_, 'xseed': s_, 'magbias': mb_}} for p_, d_, s_, mb_ in jobs])
